@@ -88,6 +88,8 @@ type Gen struct {
 	phiInit  map[*ssa.Phi]string
 	defers   []*ssa.Defer
 	callOrd  map[string]int
+	siteOrd  map[string]int
+	atSeen   map[*AtStmt]bool
 	retOrd   int
 	warnings []string
 	outOfSub []string
@@ -764,6 +766,8 @@ func (g *Gen) reset() {
 	g.phiInit = map[*ssa.Phi]string{}
 	g.defers = nil
 	g.callOrd = map[string]int{}
+	g.siteOrd = map[string]int{}
+	g.atSeen = map[*AtStmt]bool{}
 	g.retOrd = 0
 	g.warnings = nil
 	g.outOfSub = nil
